@@ -9,6 +9,7 @@ import Driver.CaseRepo
 import Driver.Config
 import Driver.Flow
 import Driver.Trap
+import Driver.LuaApi
 /-
   Driver: one request per line on stdin, one answer per line on stdout.
   Unknown or malformed lines answer `bad` (never a default).
@@ -29,6 +30,7 @@ def handle (line : String) : String :=
   else if l.startsWith "verdict " then handleVerdict l
   else if l.startsWith "suite " then handleSuite l
   else if l.startsWith "isolation " then handleIsolation l
+  else if l.startsWith "luaapi " then handleLuaApi l
   else if l.startsWith "trap " then handleTrap l
   else if l.startsWith "port " then handlePort l
   else if l.startsWith "label " then handleLabel l
